@@ -10,6 +10,7 @@ import (
 	"sort"
 
 	"github.com/cosmos/cosmos-proto/internal/testprotos/test3"
+	"github.com/cosmos/cosmos-proto/internal/verifsim/rndcorpus"
 	"github.com/cosmos/cosmos-proto/internal/verifsim/shapes"
 	"github.com/cosmos/cosmos-proto/internal/verifsim/simhook"
 	"github.com/cosmos/cosmos-proto/internal/verifsim/simrun"
@@ -36,6 +37,7 @@ func main() {
 		Name:     "A-maporder",
 		Property: "C05",
 		Init: func(p map[string]string) error {
+			corpus = append(corpus, rndcorpus.Messages...)
 			if p["native"] == "1" {
 				nativeReps = 6
 			}
